@@ -44,7 +44,9 @@ def gen_plan(rng, tier, run):
     pels, plugins = plug.gen_world(rng)
     return {"pels": pels, "plugins": plugins, "skip_plugins": rng.random() < 0.2,
             "registry": common.gen_registry(rng, [p["recipe"] for p in pels]) if rng.random() < 0.3 else None,
-            "order": {"policy": rng.choice(["perm", "asc", "desc"]), "key": rng.randrange(1 << 30)}}
+            "order": {"policy": rng.choice(["perm", "asc", "desc"]), "key": rng.randrange(1 << 30)},
+            # slow storage: virtual seconds per I/O event (delivers an interval timer the code under test left armed)
+            "tick": rng.choice([0, 0, 0, 0, 0.5, 8.0])}
 
 
 def run_history(plan, plugins):
@@ -52,6 +54,7 @@ def run_history(plan, plugins):
     ops = []
     with World(plugins=plugins, registry=plan["registry"]) as w:
         w.long_opts = bool(plan.get("long_opts"))
+        w.fs.tick = float(plan.get("tick") or 0)
         common.put_store(w, "D", plan["pels"])
         host = w.host
         extra = ["-P"] if plan["skip_plugins"] else []
